@@ -102,6 +102,14 @@ def judge(ctx: Ctx, tag: str, method: str, cv, axis, type_measure, subpix, d_b, 
             n_ref += 1
             if c0 == c1 or c2 == c1:
                 n_deg += 1
+            # numerically flat triples (differences below 1e-12, e.g. denormal costs): the fit is ill-conditioned and the
+            # implementation may legitimately keep the sample; only the half-sample bound is judged there
+            scale = max(abs(c0), abs(c1), abs(c2), 1.0)
+            if max(abs(c0 - c1), abs(c2 - c1)) < 1e-12 * scale and not (c0 == c1 == c2):
+                ctx.unspecified += 1
+                if abs(da - db) > 0.5 / subpix + 1e-6:
+                    ctx.violation("C06/moved-more-than-half-sample", f"{tag} pixel {(r, c)} triple={(c0, c1, c2)} disp {db}->{da}")
+                continue
             if ma != mb:
                 ctx.violation("C06/refined-pixel-bit3-changed", f"{tag} pixel {(r, c)} triple={(c0, c1, c2)} mask {mb}->{ma}")
             x, y = ref_fit(method, c0, c1, c2, type_measure)
